@@ -211,6 +211,9 @@ func c04(tier string) []*explore.Scenario {
 	for _, kind := range []string{"Unary", "Bidi", "SStream", "CStream"} {
 		out = append(out, c04EndToEnd(kind, false), c04EndToEnd(kind, true))
 	}
+	for _, way := range []string{"first-message", "sendheader", "with-trailer"} {
+		out = append(out, c04HeaderRace(way, 2))
+	}
 	return out
 }
 
@@ -436,6 +439,62 @@ func c04EndToEnd(kind string, viaInterceptor bool) *explore.Scenario {
 			vsched.Count("inputs", int64(n))
 			vsched.Obs("%s: %d (metadata set x way) cases", kind, n)
 			finishDirect(d, w, true)
+		},
+	}
+}
+
+// c04HeaderRace: Header() is called from its own goroutine while the first
+// response arrives and another goroutine receives (all schedules within the bound).
+func c04HeaderRace(way string, bound int) *explore.Scenario {
+	fam := "C04/header-race"
+	return &explore.Scenario{
+		Name: "C04/header-race/" + way, Family: fam, Prop: "C04", Bound: bound,
+		Run: func() {
+			w := env.NewWorld()
+			env.MsgSize = 0
+			d := env.NewDirect(w, env.DirectOpts{Pipe: env.PipeOpts{Cap: 64}})
+			vsched.Settle()
+			vsched.Explore(true)
+			hdr := metadata.MD{"k": {"v1", "v2"}, "x-bin": {"\x00\xff"}}
+			trl := metadata.MD{"t": {"end"}}
+			r := w.Rec("s", "Bidi")
+			w.Handlers["s"] = func(r *env.Rec, ss grpc.ServerStream) error {
+				switch way {
+				case "sendheader":
+					ss.SendHeader(hdr)
+					ss.SendMsg(env.S("x"))
+				case "first-message":
+					ss.SetHeader(hdr)
+					ss.SendMsg(env.S("x"))
+				default:
+					ss.SetHeader(hdr)
+				}
+				ss.SetTrailer(trl)
+				return nil
+			}
+			cs := w.Open(d.CC, context.Background(), r)
+			if cs == nil {
+				vsched.Fail(fam+"|open", "open failed")
+				return
+			}
+			var got metadata.MD
+			var herr error
+			hdone := false
+			vsched.GoNamed("header", func() { got, herr = cs.Header(); hdone = true })
+			vsched.GoNamed("receiver", func() { env.CClose(r, cs); env.CRecvAll(r, cs); r.CDone = true })
+			vsched.Quiesce()
+			if !hdone || !r.CDone {
+				vsched.Fail(fam+"|hang", "Header() returned=%v receiver done=%v", hdone, r.CDone)
+				return
+			}
+			if herr != nil {
+				vsched.Fail(fam+"|response-header", "Header() failed: %v", herr)
+			} else if msg := wantOf(hdr).check(got, nil); msg != "" {
+				vsched.Fail(fam+"|response-header", "Header() called concurrently with the first response (%s): %s", way, msg)
+			}
+			if msg := wantOf(trl).check(r.CTrailer, nil); msg != "" {
+				vsched.Fail(fam+"|response-trailer", "Trailer(): %s", msg)
+			}
 		},
 	}
 }
